@@ -1,9 +1,388 @@
-// Package c20: check for property C20 (stub until implemented).
+// Package c20: key material survives storage and repeated use unchanged; nonces are fresh.
+// Exhaustive enumeration of operation sequences over real parties (production entropy).
 package c20
 
-import "verif/internal/core"
+import (
+	"bytes"
+	"encoding/json"
+	"fmt"
+	"math/big"
+	"runtime"
+	"strings"
 
-// Implemented reports whether this check is built.
-const Implemented = false
+	"github.com/bnb-chain/tss-lib/v2/common"
+	"github.com/bnb-chain/tss-lib/v2/crypto"
+	"github.com/bnb-chain/tss-lib/v2/crypto/ckd"
+	eckg "github.com/bnb-chain/tss-lib/v2/ecdsa/keygen"
+	ecsg "github.com/bnb-chain/tss-lib/v2/ecdsa/signing"
+	edkg "github.com/bnb-chain/tss-lib/v2/eddsa/keygen"
+	"github.com/bnb-chain/tss-lib/v2/tss"
+	"github.com/btcsuite/btcd/chaincfg"
 
-func Run(r *core.Run) { r.Cap("not implemented") }
+	"verif/internal/core"
+	"verif/internal/netrun"
+	"verif/internal/oracle"
+	"verif/internal/ref"
+	"verif/internal/scen"
+	"verif/internal/statehash"
+)
+
+const Implemented = true
+
+var ops = []string{"reload", "sign(0,1)", "sign(2,1;reversed)", "sign+offset(0,2)", "abort-silence(0,1)", "abort-tamper(1,2)"}
+
+type session struct {
+	R      []byte
+	commit [][]byte // round-1 commitment message bytes of each signer
+	label  string
+}
+
+type world struct {
+	r      *core.Run
+	curve  string
+	ec     []eckg.LocalPartySaveData
+	ed     []edkg.LocalPartySaveData
+	t      int
+	msg    *big.Int
+	seq    []string
+	sess   []session
+	seedNo int
+}
+
+func (w *world) hashes() []string {
+	var out []string
+	if w.curve == "ecdsa" {
+		for i := range w.ec {
+			out = append(out, statehash.ValueHash(&w.ec[i]))
+		}
+	} else {
+		for i := range w.ed {
+			out = append(out, statehash.ValueHash(&w.ed[i]))
+		}
+	}
+	return out
+}
+
+func (w *world) viol(key, what string) {
+	w.r.Violate(w.curve+"/"+key, what, map[string]interface{}{"sequence": w.seq})
+}
+
+func (w *world) reload() {
+	if w.curve == "ecdsa" {
+		var out []eckg.LocalPartySaveData
+		for i := range w.ec {
+			bz, err := json.Marshal(&w.ec[i])
+			if err != nil {
+				w.viol("reload/marshal-error", err.Error())
+				return
+			}
+			var k eckg.LocalPartySaveData
+			if err := json.Unmarshal(bz, &k); err != nil {
+				w.viol("reload/unmarshal-error", err.Error())
+				return
+			}
+			out = append(out, k)
+		}
+		before := w.hashes()
+		w.ec = out
+		after := w.hashes()
+		if strings.Join(before, ",") != strings.Join(after, ",") {
+			// not a violation by itself (the property's oracle is use, not structure): later operations of the
+			// sequence sign with the reloaded data and must give valid signatures under the same key
+			w.r.Count("reload_value_differences", 1)
+		}
+	} else {
+		var out []edkg.LocalPartySaveData
+		for i := range w.ed {
+			bz, err := json.Marshal(&w.ed[i])
+			if err != nil {
+				w.viol("reload/marshal-error", err.Error())
+				return
+			}
+			var k edkg.LocalPartySaveData
+			if err := json.Unmarshal(bz, &k); err != nil {
+				w.viol("reload/unmarshal-error", err.Error())
+				return
+			}
+			out = append(out, k)
+		}
+		before := w.hashes()
+		w.ed = out
+		after := w.hashes()
+		if strings.Join(before, ",") != strings.Join(after, ",") {
+			w.r.Count("reload_value_differences", 1)
+		}
+	}
+}
+
+// sign runs one session. mode: "", "silence", "tamper". Returns the signature data if completed.
+func (w *world) sign(signers []int, reversed bool, mode string, kdd *big.Int, ecKeysOverride []eckg.LocalPartySaveData, pub *crypto.ECPoint, label string) {
+	cfg := netrun.Config{Threshold: w.t, Msg: w.msg, RealRand: true, ShareKeys: true}
+	if reversed {
+		cfg.IDOrder = []int{1, 0}
+	}
+	if w.curve == "ecdsa" {
+		cfg.Proto = netrun.EcdsaSigning
+		src := w.ec
+		if ecKeysOverride != nil {
+			src = ecKeysOverride
+		}
+		for _, s := range signers {
+			cfg.EcKeys = append(cfg.EcKeys, src[s])
+		}
+		cfg.KDD = kdd
+	} else {
+		cfg.Proto = netrun.EddsaSigning
+		for _, s := range signers {
+			cfg.EdKeys = append(cfg.EdKeys, w.ed[s])
+		}
+	}
+	nw, err := netrun.New(cfg)
+	if err != nil {
+		w.viol("sign/constructor-error", err.Error())
+		return
+	}
+	// run FIFO by hand so that a peer can be silenced / a message tampered
+	type cp struct {
+		m  *netrun.Msg
+		to int
+	}
+	var q []cp
+	push := func(ms []*netrun.Msg) {
+		for _, m := range ms {
+			for _, t := range m.To {
+				q = append(q, cp{m, t})
+			}
+		}
+	}
+	for i := range nw.Nodes {
+		push(nw.Start(i).NewMsg)
+	}
+	delivered := 0
+	tampered := false
+	for len(q) > 0 {
+		c := q[0]
+		q = q[1:]
+		if mode == "silence" && c.m.Sender == 1 && c.m.Seq >= 2 {
+			continue // peer 1 goes silent after round 1
+		}
+		bz := c.m.Bytes
+		if mode == "tamper" && !tampered && c.m.Sender == 0 && c.m.Seq >= 1 {
+			bz = append([]byte{}, bz...)
+			bz[len(bz)-3] ^= 0x40
+			tampered = true
+		}
+		res := nw.DeliverRaw(c.to, bz, nw.Nodes[c.m.Sender].ID, c.m.Broadcast, c.m.Ref())
+		delivered++
+		if res.Panic != "" && mode == "" {
+			w.viol("sign/panic", res.Panic)
+			return
+		}
+		push(res.NewMsg)
+	}
+	w.r.Count("sessions", 1)
+	if mode != "" {
+		w.r.Count("aborted_sessions", 1)
+		for i, n := range nw.Nodes {
+			if i != 1 && len(n.Ends) > 0 && mode == "silence" {
+				w.viol("abort/silenced-session-completed", "a session completed although a peer was silenced")
+			}
+		}
+		return
+	}
+	var first *common.SignatureData
+	for _, n := range nw.Nodes {
+		if len(n.Ends) != 1 {
+			w.viol("sign/"+label+"/no-result", fmt.Sprintf("session did not complete: errs=%v", n.Errs))
+			return
+		}
+		first = n.Ends[0].(*common.SignatureData)
+	}
+	var probs []oracle.Problem
+	if w.curve == "ecdsa" {
+		probs = oracle.CheckEcdsaSig(first, pub, w.msg, 0)
+	} else {
+		probs = oracle.CheckEddsaSig(first, pub, w.msg, 0)
+	}
+	for _, p := range probs {
+		w.viol("sign/"+label+"/"+p.Key, p.What)
+	}
+	s := session{label: label}
+	if w.curve == "ecdsa" {
+		s.R = first.R
+	} else {
+		s.R = first.Signature[:32]
+	}
+	for _, n := range nw.Nodes {
+		for _, m := range n.Emitted {
+			if m.Type == "SignRound1Message2" || m.Type == "SignRound1Message" {
+				s.commit = append(s.commit, m.Bytes)
+			}
+		}
+	}
+	w.sess = append(w.sess, s)
+	w.r.Count("completed_sessions", 1)
+}
+
+func (w *world) apply(op string) {
+	before := w.hashes()
+	var pub *crypto.ECPoint
+	if w.curve == "ecdsa" {
+		pub = w.ec[0].ECDSAPub
+	} else {
+		pub = w.ed[0].EDDSAPub
+	}
+	switch op {
+	case "reload":
+		w.reload()
+		return
+	case "sign(0,1)":
+		w.sign([]int{0, 1}, false, "", nil, nil, pub, "plain")
+	case "sign(2,1;reversed)":
+		w.sign([]int{2, 1}, true, "", nil, nil, pub, "reversed")
+	case "abort-silence(0,1)":
+		w.sign([]int{0, 1}, false, "silence", nil, nil, pub, "silence")
+	case "abort-tamper(1,2)":
+		w.sign([]int{1, 2}, false, "tamper", nil, nil, pub, "tamper")
+	case "sign+offset(0,2)":
+		// the caller's workflow: derive, adjust a deep copy of the stored data, sign with the offset
+		var copies []eckg.LocalPartySaveData
+		for i := range w.ec {
+			bz, _ := json.Marshal(&w.ec[i])
+			var k eckg.LocalPartySaveData
+			if err := json.Unmarshal(bz, &k); err != nil {
+				w.viol("offset/copy-error", err.Error())
+				return
+			}
+			copies = append(copies, k)
+		}
+		chain := core.Bytes("c20-chaincode", 32)
+		ext := &ckd.ExtendedKey{PublicKey: *pub.ToECDSAPubKey(), Depth: 0, ChildIndex: 0, ChainCode: chain, ParentFP: []byte{0, 0, 0, 0}, Version: chaincfg.MainNetParams.HDPublicKeyID[:]}
+		delta, child, err := ckd.DeriveChildKeyFromHierarchy([]uint32{1, 7}, ext, tss.S256().Params().N, tss.S256())
+		if err != nil {
+			w.viol("offset/derive-error", err.Error())
+			return
+		}
+		if err := ecsg.UpdatePublicKeyAndAdjustBigXj(delta, copies, &child.PublicKey, tss.S256()); err != nil {
+			w.viol("offset/adjust-error", err.Error())
+			return
+		}
+		cpub, _ := crypto.NewECPoint(tss.S256(), child.PublicKey.X, child.PublicKey.Y)
+		w.sign([]int{0, 2}, false, "", delta, copies, cpub, "offset")
+	}
+	after := w.hashes()
+	for i := range before {
+		if before[i] != after[i] {
+			w.viol("stored-key-data-modified/by-"+strings.SplitN(op, "(", 2)[0], fmt.Sprintf("party %d's stored key data changed during %s", i, op))
+		}
+	}
+}
+
+func (w *world) finish() {
+	for i := range w.sess {
+		for j := i + 1; j < len(w.sess); j++ {
+			w.r.Count("session_pairs_compared", 1)
+			if bytes.Equal(w.sess[i].R, w.sess[j].R) {
+				w.viol("nonce-reuse/R", fmt.Sprintf("sessions %d and %d produced the same R", i, j))
+			}
+			for _, a := range w.sess[i].commit {
+				for _, b := range w.sess[j].commit {
+					if bytes.Equal(a, b) {
+						w.viol("nonce-reuse/round1-commitment", fmt.Sprintf("sessions %d and %d share a round-1 commitment", i, j))
+					}
+				}
+			}
+		}
+	}
+}
+
+func sequences(alphabet []string, maxLen int) [][]string {
+	var out [][]string
+	var rec func(cur []string)
+	rec = func(cur []string) {
+		if len(cur) > 0 {
+			out = append(out, append([]string{}, cur...))
+		}
+		if len(cur) == maxLen {
+			return
+		}
+		for _, a := range alphabet {
+			rec(append(cur, a))
+		}
+	}
+	rec(nil)
+	return out
+}
+
+func Run(r *core.Run) {
+	wk := runtime.NumCPU()
+	maxLen := 3
+	if r.Tier == "thorough" {
+		maxLen = 4
+	}
+	ecBase := scen.EcKey("small", 3, 1, r.Seed)
+	edBase := scen.EdKey("small", 3, 1, r.Seed)
+	msg := new(big.Int).SetBytes(core.Bytes("c20-msg", 32))
+	msg.Mod(msg, ref.Secp256k1.N)
+	for _, curve := range []string{"ecdsa", "eddsa"} {
+		alpha := ops
+		if curve == "eddsa" {
+			alpha = []string{"reload", "sign(0,1)", "sign(2,1;reversed)", "abort-silence(0,1)", "abort-tamper(1,2)"}
+		}
+		seqs := sequences(alpha, maxLen)
+		core.ParallelFor(len(seqs), wk, func(i int) {
+			w := &world{r: r, curve: curve, t: 1, msg: msg, seq: seqs[i]}
+			// every sequence starts from its own deep copy of the generated key (JSON round trip is itself an
+			// operation under test, so the copy is made structurally)
+			if curve == "ecdsa" {
+				w.ec = deepCopyEc(ecBase)
+			} else {
+				w.ed = deepCopyEd(edBase)
+			}
+			for _, op := range seqs[i] {
+				w.apply(op)
+			}
+			w.finish()
+			r.Count("sequences", 1)
+			r.Distinct("sequences", curve+":"+strings.Join(seqs[i], ">"))
+			if i%97 == 0 {
+				r.Sample(4, map[string]interface{}{"curve": curve, "sequence": seqs[i], "completed_sessions": len(w.sess)})
+			}
+		})
+	}
+	r.Set("evaluations", int(r.Get("sequences")))
+	r.Set("distinct_nontrivial", r.NDistinct("sequences"))
+	r.Set("states", int(r.Get("sequences")))
+	r.Set("transitions", int(r.Get("sessions")))
+	r.Set("traces_validated_against_impl", int(r.Get("sequences")))
+	r.Set("rule", fmt.Sprintf("every operation sequence of length <= %d over the alphabet %v (ECDSA) / the same without the offset operation (EdDSA), each executed on real parties from a fresh copy of one generated (3,1) key; a sequence is one history, all are distinct", maxLen, ops))
+	r.Assume("sessions use the library's default entropy (crypto/rand) as in production; equal nonces from a shared seeded reader would be the harness's fault")
+	r.Assume("a caller that signs with a derivation offset adjusts a deep copy of the stored data (UpdatePublicKeyAndAdjustBigXj mutates the slice it is given)")
+}
+
+func deepCopyEc(in []eckg.LocalPartySaveData) []eckg.LocalPartySaveData {
+	out := make([]eckg.LocalPartySaveData, len(in))
+	for i := range in {
+		out[i] = in[i]
+		out[i].Xi = new(big.Int).Set(in[i].Xi)
+		out[i].ShareID = new(big.Int).Set(in[i].ShareID)
+		out[i].Ks = append([]*big.Int{}, in[i].Ks...)
+		out[i].BigXj = append([]*crypto.ECPoint{}, in[i].BigXj...)
+		out[i].NTildej = append([]*big.Int{}, in[i].NTildej...)
+		out[i].H1j = append([]*big.Int{}, in[i].H1j...)
+		out[i].H2j = append([]*big.Int{}, in[i].H2j...)
+	}
+	return out
+}
+
+func deepCopyEd(in []edkg.LocalPartySaveData) []edkg.LocalPartySaveData {
+	out := make([]edkg.LocalPartySaveData, len(in))
+	for i := range in {
+		out[i] = in[i]
+		out[i].Xi = new(big.Int).Set(in[i].Xi)
+		out[i].ShareID = new(big.Int).Set(in[i].ShareID)
+		out[i].Ks = append([]*big.Int{}, in[i].Ks...)
+		out[i].BigXj = append([]*crypto.ECPoint{}, in[i].BigXj...)
+	}
+	return out
+}
